@@ -104,6 +104,7 @@ type rewriter struct {
 	curFile  string
 	pcs      []string
 	funcDepth int
+	syncWaitName string // local name of testing/synctest in the current file if a Wait call was rewritten
 }
 
 func (r *rewriter) name(p string) *ast.Ident {
@@ -421,6 +422,18 @@ func (r *rewriter) walkExpr(v reflect.Value) reflect.Value {
 		return v
 	}
 	switch n := e.(type) {
+	case *ast.CallExpr:
+		if sel, ok := n.Fun.(*ast.SelectorExpr); ok && sel.Sel.Name == "Wait" && len(n.Args) == 0 {
+			if id, ok := sel.X.(*ast.Ident); ok {
+				if pn, ok := r.info.Uses[id].(*types.PkgName); ok && pn.Imported().Path() == "testing/synctest" {
+					// synctest.Wait() inside a scheduled thread would collide with the scheduler's own Wait
+					r.stats["synctest-wait"]++
+					r.syncWaitName = id.Name
+					v.Set(reflect.ValueOf(r.call("SyncWait")))
+					return v
+				}
+			}
+		}
 	case *ast.FuncLit:
 		r.funcDepth++
 		n.Body.List = r.stmts(n.Body.List)
@@ -699,6 +712,15 @@ func (r *rewriter) selectStmt(n *ast.SelectStmt) ast.Stmt {
 
 func (r *rewriter) file(f *ast.File) {
 	r.usedVS = false
+	r.syncWaitName = ""
+	defer func() {
+		if r.syncWaitName != "" {
+			// keep the import used
+			f.Decls = append(f.Decls, &ast.GenDecl{Tok: token.VAR, Specs: []ast.Spec{&ast.ValueSpec{
+				Names:  []*ast.Ident{ast.NewIdent("_")},
+				Values: []ast.Expr{&ast.SelectorExpr{X: ast.NewIdent(r.syncWaitName), Sel: ast.NewIdent("Wait")}}}}})
+		}
+	}()
 	for _, d := range f.Decls {
 		switch n := d.(type) {
 		case *ast.FuncDecl:
